@@ -914,6 +914,206 @@ class LinksUpdate(FnSpec):
         ]
 
 
+# ---- TOCSchemas.__init__: the index rebuilt from the stored records (C06, C20) --------------------------------
+
+
+class InitObj(SObj):
+    """`self` inside __init__: empty containers assigned to the bookkeeping fields become typed symbolic containers"""
+
+    TYPES = {"_schemas": ("set", RT), "_parents": ("map", RT, toc.LST), "_children": ("map", RT, TSetT(RT)), "_used": ("map", PD, TSetT(RT))}
+
+    def py_setattr(self, cx, name, val):
+        t = self.TYPES.get(name)
+        if t is not None and isinstance(val, (set, dict)) and not val:
+            val = SSet(t[1]) if t[0] == "set" else SMap(t[1], t[2], name=name.strip("_"))
+        SObj.py_setattr(self, cx, name, val)
+
+
+class RecName(SVal):
+    def __init__(self, ref_t):
+        self.ref_t = ref_t
+
+
+class RecNode(SVal):
+    """the record group <schemas>/<name__version> of a used schema"""
+
+    def __init__(self, ref_t):
+        self.ref_t = ref_t
+
+    def py_isinstance(self, cx, c):
+        return c == "H5GroupLike"
+
+    def py_getitem(self, cx, k):
+        if k != "compat":
+            raise Unsupported("record member " + repr(k))
+        return CompatDs(self.ref_t)
+
+
+class CompatDs(SVal):
+    def __init__(self, ref_t, stage="ds"):
+        self.ref_t, self.stage = ref_t, stage
+
+    def py_isinstance(self, cx, c):
+        return c == "H5DatasetLike"
+
+    def py_getitem(self, cx, idx):
+        if idx != ():
+            raise Unsupported("dataset read other than [()]")
+        return CompatDs(self.ref_t, "bytes")
+
+    def meth_decode(self, cx, enc="utf-8"):
+        return CompatDs(self.ref_t, "text")
+
+
+class JsonLoads(SVal):
+    def meth_loads(self, cx, v):
+        if not (isinstance(v, CompatDs) and v.stage == "text"):
+            raise Unsupported("json.loads of something else than the decoded compat dataset")
+        return CompatDs(v.ref_t, "reflist")
+
+
+def map_parse_obj(cx, f, seq):
+    if not (isinstance(seq, CompatDs) and seq.stage == "reflist" and getattr(f, "what", None) == "PluginRef.parse_obj"):
+        raise Unsupported("map() other than PluginRef.parse_obj over the stored reference list")
+    # what _register stored under compat is the parent path of the schema (its contract), JSON and pydantic round-trip it (T5/T9)
+    return SSeq(RT, toc.PP(seq.ref_t))
+
+
+class PluginRefCls(SVal):
+    def py_getattr(self, cx, name):
+        if name == "parse_obj":
+            v = SVal()
+            v.what = "PluginRef.parse_obj"
+            return v
+        raise Unsupported("PluginRef." + name)
+
+
+class RecItems(SVal):
+    def __init__(self, rec):
+        self.rec = rec
+
+    def py_iter_schema(self, cx):
+        from pyvc.containers import SetIter
+
+        return SetIter(RT, self.rec.dom, lambda kterm: (RecName(kterm), RecNode(kterm)))
+
+
+class InitRaw(SVal):
+    def __init__(self, rec):
+        self.rec = rec
+
+    def py_contains(self, cx, k):
+        if k != SCHEMAS_PATH:
+            raise Unsupported("membership of " + repr(k))
+        return z3.Not(is_empty_set(self.rec))  # the schemas group exists iff there are records (no empty bookkeeping groups)
+
+    def meth_require_group(self, cx, k):
+        if k != SCHEMAS_PATH:
+            raise Unsupported("group " + repr(k))
+        return self
+
+    def meth_items(self, cx):
+        return RecItems(self.rec)
+
+
+class SchemasInit(FnSpec):
+    file = "container/interface.py"
+    qual = "TOCSchemas.__init__"
+    props = ("C06", "C20")
+
+    def init(self):
+        self.bindings["M"] = MStub()
+        self.bindings["json"] = JsonLoads()
+        self.bindings["map"] = map_parse_obj
+        self.bindings["list"] = lambda cx, v: v
+        self.bindings["PluginRef"] = PluginRefCls()
+        self.bindings["H5GroupLike"] = SClass("H5GroupLike")
+        self.bindings["H5DatasetLike"] = SClass("H5DatasetLike")
+        self.bindings["_schema_ref_for"] = lambda cx, n: SRef("SchemaRef", n.ref_t)
+        self.inline |= {"TOCPackages.keys"}
+
+        def inv_used_init(cx, env, it):
+            o = cx.ghost["si"].self
+            U = o.fields["_used"]
+            p = z3.Const(fresh_name("up"), PDs)
+            s = z3.Const(fresh_name("us"), Ref)
+            return [("use-sets-created-empty", z3.ForAll([p, s], z3.And(U.has(p) == z3.Select(it.processed, p), z3.Implies(U.has(p), z3.Not(z3.Select(U.get_term(p), s))))))]
+
+        def inv_outer(cx, env, it):
+            a = cx.ghost["si"]
+            o = a.self
+            S, U = o.fields["_schemas"], o.fields["_used"]
+            P, I = a.pk.fields["_providers"], a.pk.fields["_pkginfos"]
+            x = z3.Const(fresh_name("ox"), Ref)
+            p = z3.Const(fresh_name("op"), PDs)
+            a.outer_it = it
+            out = [
+                ("schemas-are-the-records-read-so-far", z3.ForAll([x], S.has(x) == z3.Select(it.processed, x))),
+                ("use-sets-are-the-providers-of-the-records-read-so-far", z3.ForAll([p, x], z3.And(U.has(p) == I.has(p), z3.Implies(I.has(p), z3.Select(U.get_term(p), x) == z3.And(z3.Select(it.processed, x), member(P, x, p)))))),
+            ]
+            out += [("index:" + n, g) for n, g in toc.index_inv_post(lambda y: S.has(y), o.fields["_parents"], o.fields["_children"], "oi")]
+            return out
+
+        def inv_inner(cx, env, it):
+            a = cx.ghost["si"]
+            o = a.self
+            S, U = o.fields["_schemas"], o.fields["_used"]
+            P, I = a.pk.fields["_providers"], a.pk.fields["_pkginfos"]
+            r = env["s_ref"].t
+            proc = a.outer_it.processed
+            x = z3.Const(fresh_name("ix"), Ref)
+            p = z3.Const(fresh_name("ip"), PDs)
+            out = [
+                ("schemas-are-the-records-read-so-far-plus-this", z3.ForAll([x], S.has(x) == z3.Or(z3.Select(proc, x), x == r))),
+                ("use-sets-updated-for-the-providers-handled", z3.ForAll([p, x], z3.And(U.has(p) == I.has(p), z3.Implies(I.has(p), z3.Select(U.get_term(p), x) == z3.Or(z3.And(z3.Select(proc, x), member(P, x, p)), z3.And(x == r, z3.Select(it.processed, p))))))),
+            ]
+            out += [("index:" + n, g) for n, g in toc.index_inv_post(lambda y: S.has(y), o.fields["_parents"], o.fields["_children"], "ii")]
+            return out
+
+        self.loops[0] = LoopSpec(inv_used_init, modifies=["pkg"], havoc_inplace=["self._used"])
+        self.loops[1] = LoopSpec(inv_outer, modifies=["name", "node", "s_ref", "compat", "reflist", "parents", "pkg"], havoc_inplace=["self._schemas", "self._parents", "self._children", "self._used"])
+        self.loops[2] = LoopSpec(inv_inner, modifies=["pkg"], havoc_inplace=["self._used"])
+
+    def setup(self, cx):
+        for ax in toc.path_axioms():
+            cx.assume(ax)
+        o = InitObj("TOCSchemas", name="self")
+        rec = SSet.fresh(RT, "stored_schema_records")
+        pk = pkgs_obj(cx, "toc_packages")
+        a = A(self=o, raw_cont=InitRaw(rec), toc_packages=pk)
+        a.rec, a.pk = rec, pk
+        a.outer_it = None
+        cx.ghost["si"] = a
+        return a
+
+    def requires(self, cx, a):
+        P, I = a.pk.fields["_providers"], a.pk.fields["_pkginfos"]
+        s = z3.Const(fresh_name("rs"), Ref)
+        p = z3.Const(fresh_name("rp"), PDs)
+        return [
+            ("every-recorded-schema-has-a-stored-provider-entry", z3.ForAll([s], z3.Implies(a.rec.has(s), P.has(s)))),
+            ("providers-name-stored-packages", z3.ForAll([s, p], z3.Implies(member(P, s, p), I.has(p)))),
+        ]
+
+    def ensures(self, cx, a, res):
+        o = a.self
+        S, U = o.fields.get("_schemas"), o.fields.get("_used")
+        if not isinstance(S, SSet) or not isinstance(U, SMap):
+            return [("bookkeeping-initialised", z3.BoolVal(False), "the tables exist")]
+        P, I = a.pk.fields["_providers"], a.pk.fields["_pkginfos"]
+        x = z3.Const(fresh_name("ex"), Ref)
+        p = z3.Const(fresh_name("ep"), PDs)
+        cl = "the in-memory index rebuilt from disk on open is the one determined by the stored records (and therefore equals the incrementally maintained one, which satisfies the same determining conditions)"
+        out = [
+            ("schemas-in-use-are-the-stored-records", z3.ForAll([x], S.has(x) == a.rec.has(x)), cl),
+            ("use-sets-rebuilt-from-providers", z3.ForAll([p, x], z3.And(U.has(p) == I.has(p), z3.Implies(I.has(p), z3.Select(U.get_term(p), x) == z3.And(a.rec.has(x), member(P, x, p))))), "every stored package tracks exactly the recorded schemas it provides — ALL of them, not only the last one read"),
+            ("fields-wired", z3.BoolVal(o.fields.get("_raw") is a.raw_cont and o.fields.get("_pkgs") is a.pk), "the raw container and the package table are the ones given"),
+        ]
+        for n, g in toc.index_inv_post(lambda y: S.has(y), o.fields["_parents"], o.fields["_children"], "ep"):
+            out.append(("index:" + n, g, cl))
+        return out
+
+
 def add_tocreg(reg):
     reg.set_class_home("TOCPackages", "container/interface.py")
     reg.attr_bindings[("PkgInfo", "plugins")] = lambda cx, o: PluginsStub(o.t)
@@ -924,7 +1124,7 @@ def add_tocreg(reg):
     reg.attr_bindings[("PkgInfo", "version")] = lambda cx, o: VER.wrap(INFO_VER(o.t))
     reg.attr_bindings[("SchemaRef", "name")] = lambda cx, o: SStr(REF_NAME(o.t))
     reg.attr_bindings[("SchemaRef", "version")] = lambda cx, o: VER.wrap(REF_VER(o.t))
-    specs = [AddProviders(), PkgRegister(), PkgUnregister(), SchemaRegister(), SchemaUnregister(), LinksRegister(), LinksUnregister(), LinksUpdate()]
+    specs = [AddProviders(), PkgRegister(), PkgUnregister(), SchemaRegister(), SchemaUnregister(), LinksRegister(), LinksUnregister(), LinksUpdate(), SchemasInit()]
     for s in specs:
         reg.add(s)
     return specs
